@@ -117,9 +117,71 @@ func runC08(c *Ctx) {
 			wrapperRes[fn] = ri
 		}
 	}
+	// accounting helpers: an unexported method with a (key, value) pair among its parameters that makes exactly one
+	// eviction callback on that pair, subtracts sizeOf(value) once and decrements count once, and takes nothing out
+	// of the store itself (discard(k, v)).  A call of it next to a departure of that very pair is the departure's
+	// whole accounting; it must not be called anywhere else.
+	type acct struct{ ki, vi int }
+	acctHelper := map[*ssa.Function]acct{}
+	for _, fn := range methods {
+		if fn.Parent() != nil || P.isCanaryFn(fn) || fn.Object() == nil || fn.Object().Exported() || len(fn.Blocks) != 1 {
+			continue
+		}
+		nCb, nSub, nDec, dep := 0, 0, 0, false
+		ki, vi := -1, -1
+		pidx := func(v ssa.Value) int {
+			for i, p := range fn.Params {
+				if v == ssa.Value(p) {
+					return i
+				}
+			}
+			return -1
+		}
+		allInstrs(fn, func(in ssa.Instruction) {
+			if n, _ := invokeName(in); n == "Evict" || n == "Remove" {
+				dep = true
+			}
+			switch x := in.(type) {
+			case *ssa.Call:
+				if isLoad(x.Call.Value, onEvictF) && len(x.Call.Args) == 2 {
+					nCb++
+					ki, vi = pidx(x.Call.Args[0]), pidx(x.Call.Args[1])
+				}
+			case *ssa.BinOp:
+				if x.Op == token.SUB && isLoad(x.X, sizeF) {
+					if arg, ok := isSizeOfCall(x.Y); ok && vi >= 0 && arg == ssa.Value(fn.Params[vi]) {
+						nSub++
+					} else if ok {
+						nSub += 2
+					}
+				}
+			case *ssa.Store:
+				if fa, ok := x.Addr.(*ssa.FieldAddr); ok {
+					if _, f := fieldVarOf(fa); sameField(f, countF) {
+						if bo, ok := x.Val.(*ssa.BinOp); ok && bo.Op == token.SUB && isLoad(bo.X, countF) && isConstInt(bo.Y, 1) {
+							nDec++
+						} else {
+							nDec += 2
+						}
+					}
+				}
+			}
+		})
+		if !dep && nCb == 1 && nSub == 1 && nDec == 1 && ki > 0 && vi > 0 {
+			acctHelper[fn] = acct{ki, vi}
+		}
+	}
+	// departure helpers with the pair as parameters (drop(key, val): Remove(key), callback, size, count): the value
+	// is the parameter the callback receives; every call site must pass the value a successful Check of that key gave
+	depParams := map[*ssa.Function]acct{}
 	wrapperUsed := map[*ssa.Function]int{}
 	for _, fn := range methods {
 		if P.isCanaryFn(fn) {
+			continue
+		}
+		if _, isAcct := acctHelper[fn]; isAcct {
+			c.sawFn(fnName(fn))
+			c.ok("R-EVICT-PAIR", fnName(fn)+":accounting helper", fn.Pos(), "one callback(k,v), one size −= sizeOf(v), one count−1 on its own parameters; judged at its call sites")
 			continue
 		}
 		name := fnName(fn)
@@ -165,6 +227,30 @@ func runC08(c *Ctx) {
 							v = extractOf(chk, 0)
 						}
 					}
+					if v == nil && fn.Parent() == nil && fn.Object() != nil && !fn.Object().Exported() {
+						// drop(key, val): the value is the parameter the callback in this block receives
+						for _, in2 := range b.Instrs {
+							if cb, ok := in2.(*ssa.Call); ok && isLoad(cb.Call.Value, onEvictF) && len(cb.Call.Args) == 2 && sameV(cb.Call.Args[0], k) {
+								if vp, ok := cb.Call.Args[1].(*ssa.Parameter); ok {
+									if kp, ok := k.(*ssa.Parameter); ok {
+										ki, vi := -1, -1
+										for i, p := range fn.Params {
+											if p == kp {
+												ki = i
+											}
+											if p == vp {
+												vi = i
+											}
+										}
+										if ki > 0 && vi > 0 {
+											v = vp
+											depParams[fn] = acct{ki, vi}
+										}
+									}
+								}
+							}
+						}
+					}
 					deps = append(deps, struct {
 						what string
 						k, v ssa.Value
@@ -193,6 +279,17 @@ func runC08(c *Ctx) {
 				for _, in := range b.Instrs {
 					switch x := in.(type) {
 					case *ssa.Call:
+						if cal := staticCallee(&x.Call); cal != nil {
+							if ah, ok := acctHelper[origin(cal)]; ok && ah.ki < len(x.Call.Args) && ah.vi < len(x.Call.Args) {
+								if sameV(x.Call.Args[ah.ki], d.k) && sameV(x.Call.Args[ah.vi], d.v) {
+									nCb++
+									nSub++
+									nDec++
+								} else {
+									probs = append(probs, "the accounting helper "+origin(cal).Name()+" is called with other arguments than the departing (key, value)")
+								}
+							}
+						}
 						if isLoad(x.Call.Value, onEvictF) {
 							if viaHelper[d.call] {
 								probs = append(probs, "a second eviction callback beside the one the helper makes")
@@ -272,6 +369,11 @@ func runC08(c *Ctx) {
 			case *ssa.Call:
 				if isLoad(x.Call.Value, onEvictF) && !depBlocks[b] {
 					c.bad("R-EVICT-PAIR", name+":callback without departure", x.Pos(), "the eviction callback is invoked in a block where nothing leaves the store")
+				}
+				if cal := staticCallee(&x.Call); cal != nil {
+					if _, ok := acctHelper[origin(cal)]; ok && !depBlocks[b] {
+						c.bad("R-EVICT-PAIR", name+":accounting without departure", x.Pos(), "the accounting helper "+origin(cal).Name()+" is called in a block where nothing leaves the store")
+					}
 				}
 				if mname, call := invokeName(in); mname == "Store" {
 					c.sawFn(name)
@@ -399,6 +501,39 @@ func runC08(c *Ctx) {
 					}
 				}
 			}
+		})
+	}
+	// call sites of departure helpers that take the pair as parameters
+	for _, fn := range methods {
+		if P.isCanaryFn(fn) {
+			continue
+		}
+		allInstrs(fn, func(in ssa.Instruction) {
+			call, ok := in.(*ssa.Call)
+			if !ok {
+				return
+			}
+			cal := staticCallee(&call.Call)
+			if cal == nil {
+				return
+			}
+			dp, ok := depParams[origin(cal)]
+			if !ok || dp.ki >= len(call.Call.Args) || dp.vi >= len(call.Call.Args) {
+				return
+			}
+			k, v := call.Call.Args[dp.ki], call.Call.Args[dp.vi]
+			good := false
+			for ex, truth := range extractFactsAt(call.Block()) {
+				if !truth || ex.Index != 1 {
+					continue
+				}
+				if chk, ok := ex.Tuple.(*ssa.Call); ok && chk.Call.IsInvoke() && chk.Call.Method.Name() == "Check" && sameV(chk.Call.Args[0], k) {
+					if e0 := extractOf(chk, 0); e0 != nil && sameV(e0, v) {
+						good = true
+					}
+				}
+			}
+			c.judge(good, "R-EVICT-PAIR", fnName(fn)+":call of "+origin(cal).Name(), call.Pos(), "the (key, value) handed to the departure helper is what a successful Check of that key returned", "the value handed to "+origin(cal).Name()+" is not the result of a successful Check of the same key: the callback and the size would account for another value")
 		})
 	}
 	for w := range wrapperRes {
